@@ -106,7 +106,7 @@ pub fn run(args: &Args) -> Report {
     let seed = args.num("seed", 0);
     let aspects = parse_aspects(&args.get("aspects", "find,iter,ov,earliest"));
     let rep = Report::new(
-        "pc",
+        &format!("pc[{}]", args.get("mode", "def")),
         format!("{} random pattern lists built to activate each prefilter variant (1..12 patterns of length 1..20 over common+rare bytes), x 3 match kinds x ci on/off x {{noncontiguous, contiguous, DFA}} with prefilter on; haystacks: {} random of length 0..12 (every span) + {} long ones (64..300 bytes, planted occurrences, sampled spans)",
                 if thorough { 3000 } else { 420 }, if thorough { 60 } else { 24 }, if thorough { 12 } else { 5 }),
         "case = (pattern list, configuration, haystack, span): Prefilter::find_in result vs the occurrence definition, and every search API with prefilter on vs the definition; non-trivial = a prefilter was built and some pattern occurs".into(),
@@ -170,7 +170,7 @@ pub fn run(args: &Args) -> Report {
                 }
                 let ctx = Ctx { rep: &rep, pats, kind, ci };
                 // (1) the prefilter's own contract, every span of every short haystack
-                for (cfg, b) in built.iter().take(1) {
+                for (cfg, b) in built.iter().take(if args.get("mode", "def") == "def" { 1 } else { 0 }) {
                     with_low(b, &mut |a| {
                         for h in &hays {
                             for s in 0..=h.len() {
@@ -196,12 +196,32 @@ pub fn run(args: &Args) -> Report {
                         }
                     });
                 }
-                // (2) transparency at the API: prefilter on vs the definition
-                for h in hays.iter().take(if thorough { 30 } else { 10 }) {
-                    check_hay(&ctx, &built, h, aspects | crate::sem::A_SPANS);
-                }
-                for h in &longs {
-                    check_hay(&ctx, &built, h, aspects);
+                let mode = args.get("mode", "def");
+                if mode == "span" {
+                    // C10: with a prefilter, a span search equals the sub-slice search shifted
+                    for h in hays.iter().take(if thorough { 30 } else { 10 }) {
+                        crate::sem::check_hay_rel(&ctx, &built, h, aspects | crate::sem::A_SPANS, "span");
+                    }
+                } else if mode == "safety" {
+                    // C15: no panic and in-range results on arbitrary bytes
+                    for h in hays.iter().chain(longs.iter()) {
+                        for (cfg, b) in &built {
+                            let r = catch_unwind(AssertUnwindSafe(|| b.try_find_iter(h, 0, h.len(), false)));
+                            rep.case(true);
+                            let ok = matches!(&r, Ok(Ok(v)) if v.iter().all(|m| m.start <= m.end && m.end <= h.len() && m.pid < pats.len()));
+                            if !ok {
+                                rep.fail(Fail { key: format!("pc-safety:{}:{}", show_pats(pats), show(h)), what: format!("panic or out-of-range match for {} [{}] on '{}': {:?}", show_pats(pats), cfg.encode(), show(h), r), argv: vec![] });
+                            }
+                        }
+                    }
+                } else {
+                    // (2) transparency at the API: prefilter on vs the definition
+                    for h in hays.iter().take(if thorough { 30 } else { 10 }) {
+                        check_hay(&ctx, &built, h, aspects | crate::sem::A_SPANS);
+                    }
+                    for h in &longs {
+                        check_hay(&ctx, &built, h, aspects);
+                    }
                 }
                 if rep.full() {
                     return;
